@@ -61,6 +61,9 @@ def jobs(tier):
         js.append(dict(name='dispatch-a%d-i%d' % (na, ni), op='dispatch', na=na, ni=ni, pend=0, cost=8 ** na))
         for v in range(1, na + 1):
           js.append(dict(name='complete%d-a%d-i%d' % (v, na, ni), op='complete', v=v, na=na, ni=ni, pend=0, cost=8 ** na))
+  if tier != 'quick':
+    for j in [j for j in js if j['op'] == 'adjust' and j['na'] <= 2]:
+      jj = dict(j); jj['name'] = j['name'] + '-symw'; jj['symbolic_weight'] = True; jj['max_seconds'] = 3600; js.append(jj)
   for na in range(0, na_max + 1):
     for ni in (0, 1):
       js.append(dict(name='drain-a%d-i%d' % (na, ni), op='drain', na=na, ni=ni, pend=0, cost=6 ** na))
@@ -74,6 +77,8 @@ def build(job):
   na, ni, pend = job['na'], job['ni'], job['pend']
   heap_mod.random = stubs.SymRandom('heap'); ap_mod.random = stubs.SymRandom('ap'); base_mod.random = stubs.SymRandom('base')
   vz.math = stubs.SymMath(); vz.float = stubs.sym_float
+  from fractions import Fraction
+  stubs.EXP_CHOICES = None if job.get('symbolic_weight') else (1, Fraction(1, 2), Fraction(1, 16))
   C = ApertureBalancerSink
   ss = FakeServerSet(0); prov = ChanProvider()
   d = dict(C.Builder._defaults); d['server_set_provider'] = ss
@@ -136,7 +141,20 @@ def adjust_oracle(c, job, amount, size_before, idle_before, pend, tag, states=No
   w = None
   E = __import__('symex.engine', fromlist=['ENG']).ENG
   # the weight the code drew for exp(-dt/W): the last declared expw variable
-  if not is_concrete():
+  from fractions import Fraction as _F
+  if stubs.EXP_CHOICES:
+    # the weight the code used: reconstruct it from the EMA value it stored (w = 1 when dt = 0, else the chosen constant)
+    rest = [_F(x) for x in stubs.EXP_CHOICES if _F(x) != 1]
+    src = E.vars if not is_concrete() else E.concrete_vals
+    names = sorted([n for n in src if n.startswith('expw_choice')], key=lambda n: (len(n), n))
+    from symex.values import Exact
+    if bool(c.dt == 0): wv = _F(1)
+    elif names:
+      idx = int(E.concrete_vals[names[-1]]) if is_concrete() else SymInt(E.vars[names[-1]][1]).unique()
+      wv = rest[idx] if idx is not None else None
+    else: wv = None
+    w = None if wv is None else (Exact(wv) if is_concrete() else SymReal(z3.RealVal(str(wv))))
+  elif not is_concrete():
     names = [n for n in E.vars if n.startswith('expw')]
     w = SymReal(E.vars[names[-1]][1]) if names else None
   else:
